@@ -58,7 +58,7 @@ def F2(m, R):
     if C > 6:
         R.undecided(f, f.node, 'literal %d in the normaliser: box too large' % C, construct=cons)
     else:
-        from ..finite import int_eval
+        from ..finite import int_eval, ZeroDiv
         bad = None
         n_pts = 0
 
@@ -110,8 +110,11 @@ def F2(m, R):
                     for dflt in (0, Lv):
                         n_pts += 1
                         env = {val: v, default: dflt, L: Lv, 'len(self)': Lv}
-                        r = run_int(f.body, env)
-                        got = r[1] if r else None
+                        try:
+                            r = run_int(f.body, env)
+                            got = r[1] if r else None
+                        except ZeroDiv:
+                            got = 'ZeroDivisionError raised'
                         want = dflt if v is None else range(Lv)[slice(v, None)].start if False else None
                         if v is None:
                             want = dflt
@@ -812,7 +815,19 @@ def F12(m, R):
     # bool is an int: fine.  order: AnsiSetting / str before int is irrelevant (disjoint types)
     eb = arms.get('<else>') or []
     txt = '\n'.join(norm(s) for s in eb)
-    ok = 'hasattr(%s, \'ansi_settings\')' % it in txt and 'raise TypeError' in txt and ('%s(%s, %s, parsed_ids)' % (ro.SCRUB, it, mk)) in txt
+    # names that stand for the item or for what it unwraps to: `c = item.ansi_settings`, `nested = c`, `nested = item`
+    item_names, attr_names = {it}, set()
+    for _r in range(3):
+        for s_ in eb:
+            for x in ast.walk(s_):
+                if isinstance(x, ast.Assign) and len(x.targets) == 1 and isinstance(x.targets[0], ast.Name):
+                    v_ = norm(x.value)
+                    if v_ in item_names:
+                        item_names.add(x.targets[0].id)
+                    if v_ in attr_names or any(v_ == '%s.ansi_settings' % n_ for n_ in item_names):
+                        attr_names.add(x.targets[0].id)
+    unpack_names = item_names | attr_names
+    ok = 'hasattr(%s, \'ansi_settings\')' % it in txt and 'raise TypeError' in txt and any(('%s(%s, %s, parsed_ids)' % (ro.SCRUB, n_, mk)) in txt for n_ in unpack_names)
     # which kinds of value reach `raise TypeError`: exactly those that are neither a list nor a tuple (and have no ansi_settings)
     tt = {}
     try:
@@ -822,21 +837,28 @@ def F12(m, R):
             def visit(s_):
                 if isinstance(s_, ast.Raise):
                     seen.append(call_name(s_.exc))
-            ex = {'hasattr(%s, \'ansi_settings\')' % it: kind == 'has-attr', 'isinstance(%s, list)' % it: kind == 'list',
-                  'isinstance(%s, tuple)' % it: kind == 'tuple', 'isinstance(%s, (list, tuple))' % it: kind in ('list', 'tuple'),
-                  'id(%s) in parsed_ids' % it: False}
+            ex = {'hasattr(%s, \'ansi_settings\')' % it: kind == 'has-attr'}
+            for n_ in unpack_names:
+                ex.update({'isinstance(%s, list)' % n_: kind == 'list', 'isinstance(%s, tuple)' % n_: kind == 'tuple',
+                           'isinstance(%s, (list, tuple))' % n_: kind in ('list', 'tuple'), 'isinstance(%s, (tuple, list))' % n_: kind in ('list', 'tuple'),
+                           'id(%s) in parsed_ids' % n_: False})
             if kind == 'has-attr':
-                ex['isinstance(%s, list)' % it] = False
-                ex['isinstance(%s, tuple)' % it] = True     # the enum's ansi_settings is a tuple
-                ex['isinstance(%s, (list, tuple))' % it] = True
+                for n_ in unpack_names:
+                    ex['isinstance(%s, list)' % n_] = False
+                    ex['isinstance(%s, tuple)' % n_] = True     # the enum's ansi_settings is a tuple
+                    ex['isinstance(%s, (list, tuple))' % n_] = True
+                    ex['isinstance(%s, (tuple, list))' % n_] = True
             out = run_block(eb, flag_valuation({}, ex), visit)
             tt[kind] = seen[0] if seen else None
     except Undecided:
         tt = None
     if tt is not None:
         ok = ok and tt == {'list': None, 'tuple': None, 'other': 'TypeError', 'has-attr': None}
-    R.check(ok, f, eb[0] if eb else loop, 'objects with ansi_settings, lists and tuples are unpacked recursively; anything else raises TypeError',
-            'unsupported-type handling: %s' % (tt,), construct='scrub else')
+    if tt is None and not ok:
+        R.undecided(f, eb[0] if eb else loop, 'the handling of the remaining types was not evaluated', construct='scrub else')
+    else:
+        R.check(ok, f, eb[0] if eb else loop, 'objects with ansi_settings, lists and tuples are unpacked recursively; anything else raises TypeError',
+                'unsupported-type handling: %s' % (tt,), construct='scrub else')
     fi = m.fn('%s._scrub_ansi_format_int' % ro.POINT)
     g = next((n for n in fi.body if isinstance(n, ast.If)), None)
     ok = g is not None and any(isinstance(x, ast.Raise) and call_name(x.exc) == 'ValueError' for x in g.body)
